@@ -298,7 +298,9 @@ def frag_builder(rng, c, codec=None):
             c.b("vps", hx(rng.bytes(rng.range(0, 12))))
     elif codec == "av1":
         if omit not in (1, 2):
-            c.b("av1seq", hx(obu(1, av1_seq_payload_simple(rng))))
+            good = obu(1, av1_seq_payload_simple(rng))
+            c.b("av1seq", hx(rng.choice([good, good, good, rng.bytes(rng.range(0, 10)), mutate(rng, good), good + av1_delta(rng),
+                                         av1_delta(rng) + good, good[:rng.range(0, len(good))]])))
     elif omit in (1, 2):
         pass
     else:
@@ -698,6 +700,43 @@ def fam_encode_paths(rng, n, prefix):
             else:
                 c.o("wv", fb(rng.choice([0.0, 0.5, 2.0, 10.0])), hx(video_delta(rng, codec)), 0)
         c.o("fin", rng.choice([0, 0, 3]))
+        out.append(c)
+    return out
+
+
+# ---------- cross-track timestamp ties (C15/C01/C08): every index relation at a tie ----------
+def fam_interleave_ties(rng, n, prefix):
+    """video and audio on a common tick grid so that equal timestamps across tracks are frequent, with
+    audio sparser, denser, late-starting or early-ending relative to video, in every call order"""
+    out = []
+    for i in range(n):
+        cfg = rand_cfg(rng, audio=rng.choice(["aac-lc", "opus", "aac-he"]), dims=(640, 480), meta=rng.choice([0, 0, 5]))
+        codec = cfg["codec"]
+        c = Case("%s%d" % (prefix, i), "mux")
+        emit_cfg(c, cfg, rng)
+        unit = rng.choice([0.05, 0.04, 0.1, 1 / 30.0])
+        t0 = rng.choice([0.0, 0.0, 1.0])
+        nv = rng.range(3, 9)
+        vstep = rng.choice([1, 1, 2])
+        astep = rng.choice([1, 2, 2, 3, 4])
+        astart = rng.choice([0, 0, 1, 2, 3]) * vstep
+        na = rng.range(1, 7)
+        vt = [t0 + unit * vstep * k for k in range(nv)]
+        at = [t0 + unit * (astart + astep * k) for k in range(na)]
+        vops = [(t, 0, ["wv", fb(t), hx(video_key(rng, codec) if k == 0 else video_delta(rng, codec)), 1 if k == 0 else 0])
+                for k, t in enumerate(vt)]
+        aops = [(t, 1, ["wa", fb(t), hx(audio_frame(rng, cfg["audio"]))]) for t in at]
+        order = rng.below(3)
+        if order == 0:      # merged, video first at ties
+            seq = sorted(vops + aops, key=lambda x: (x[0], x[1]))
+        elif order == 1:    # merged, audio first at ties (the first video frame must still come first)
+            seq = sorted(vops + aops, key=lambda x: (x[0], -x[1]))
+            seq = [vops[0]] + [x for x in seq if x is not vops[0]]
+        else:               # all video, then all audio
+            seq = vops + aops
+        for _, _, o in seq:
+            c.o(*o)
+        c.o("fin", 0)
         out.append(c)
     return out
 
